@@ -488,4 +488,140 @@ theorem segment_reconstruct_dead (s₁ dead s₂ : List Sample)
 example := segment_reconstruct_dead [(1, 1), (2, 2)] [(9, 0), (8, 0)] [(3, 1), (4, 2)]
   (Or.inr ⟨[(1, 1)], 2, rfl⟩) (by decide)
 
+/-! ## 7. Sequences of queries on one object: every answer describes the object's current window
+
+The item a colour image belongs to is the object with its CURRENT start (`self.start` is moved past a
+truncated first line the first time a photon stream that starts inside the kymograph is read).  What
+the property says about "the" image of a colour therefore has to hold for whatever `get_image`
+answers after any history of queries: no image memoised for an earlier start may survive. -/
+
+/-- The end-to-end functions of section 5b are `imageOfPixels` applied to the channel's pixels (the
+    form used by the stateful model below). -/
+theorem get_image_factors (P : Nat) (axes : Axes) (iw : List Nat) (chan : List Int) :
+    kymoGetImage P iw chan = imageOfPixels (.kymo P) (channelPixels iw chan) ∧
+    scanGetImage axes iw chan = imageOfPixels (.scan axes) (channelPixels iw chan) :=
+  ⟨kymoGetImage_eq P iw chan, scanGetImage_eq axes iw chan⟩
+
+/-- One `get_image(colour)`: if every memoised image is the reconstruction for the current start,
+    this stays so, and an image that is answered is the reconstruction for the start the query leaves
+    behind (never one for a start the object has abandoned). -/
+theorem query_colour_current (k : Kind) (iw : List Nat) (ss : Streams) (c : Nat) (st : ObjState)
+    (h : Coherent k iw ss st) :
+    Coherent k iw ss (queryColour k iw (streamOf ss c) c st).1 ∧
+    ∀ im, (queryColour k iw (streamOf ss c) c st).2 = .ok im →
+      freshImage k iw (streamOf ss c) (queryColour k iw (streamOf ss c) c st).1.off = .ok im :=
+  queryColour_current k iw ss c st h
+
+example : Coherent (.kymo 2) [0, 1, 2, 2] [⟨0, []⟩, ⟨-1, [5, 6, 7]⟩, ⟨0, []⟩] ObjState.fresh :=
+  coherent_fresh _ _ _
+
+/-- After any sequence of queries (colours, rgb, `Kymo.shape`) on a new object every memoised image is
+    the reconstruction for the start the object has by then. -/
+theorem seq_coherent (k : Kind) (iw : List Nat) (ss : Streams) (qs : List Nat) :
+    Coherent k iw ss (stateAfter k iw ss ObjState.fresh qs) := by
+  suffices h : ∀ st, Coherent k iw ss st → Coherent k iw ss (stateAfter k iw ss st qs) from
+    h _ (coherent_fresh k iw ss)
+  induction qs with
+  | nil => exact fun st h => h
+  | cons q qs ih => exact fun st h => ih _ (query_coherent k iw ss st q h)
+
+/-- A query that replaces the cache dict or moves the object's start leaves nothing memoised behind
+    (`Kymo._fix_incorrect_start`: `self._cache = {}`). -/
+theorem repair_discards_cache (k : Kind) (iw : List Nat) (s : Stream) (c : Nat) (st : ObjState)
+    (h : (queryColour k iw s c st).1.gen ≠ st.gen ∨ (queryColour k iw s c st).1.off ≠ st.off) :
+    (queryColour k iw s c st).1.cache = [] := by
+  unfold queryColour at h ⊢
+  split
+  · simp_all
+  · split
+    · simp_all
+    · next st' hp =>
+      rcases photonAccess_cases k iw s st st' hp with rfl | ⟨hc, hg⟩
+      · split <;> simp_all
+      · split
+        · exact hc
+        · have : st'.gen ≠ st.gen := by omega
+          simp [this, hc]
+
+/-- Kernel-checked run of the scenario of seeded change C02c-m2 (P = 2, three lines, green starts two
+    samples late, red has no channel): red first (3 lines of zeros, memoised), green (the first line is
+    dropped: start moves to sample 7, the cache is emptied, 2 lines), red again (2 lines of zeros). -/
+example :
+    let iw := [0, 1, 2, 1, 2, 0, 0, 1, 2, 1, 2, 0, 0, 1, 2, 1, 2, 0]
+    let red : Stream := ⟨0, []⟩
+    let green : Stream := ⟨-2, [1, 1, 1, 9, 9, 2, 2, 2, 2, 9, 9, 3, 3, 3, 3, 9]⟩
+    let s1 := queryColour (.kymo 2) iw red 0 ObjState.fresh
+    let s2 := queryColour (.kymo 2) iw green 1 s1.1
+    let s3 := queryColour (.kymo 2) iw red 0 s2.1
+    s1 = (⟨0, 0, [(0, ⟨[2, 3], [0, 0, 0, 0, 0, 0]⟩)]⟩, .ok ⟨[2, 3], [0, 0, 0, 0, 0, 0]⟩) ∧
+    s2 = (⟨7, 1, []⟩, .ok ⟨[2, 2], [4, 6, 4, 6]⟩) ∧
+    s3.2 = .ok ⟨[2, 2], [0, 0, 0, 0]⟩ ∧ s3.1.off = 7 := by decide
+
+example :
+    let iw := [0, 1, 2, 1, 2, 0, 0, 1, 2, 1, 2, 0, 0, 1, 2, 1, 2, 0]
+    let green : Stream := ⟨-2, [1, 1, 1, 9, 9, 2, 2, 2, 2, 9, 9, 3, 3, 3, 3, 9]⟩
+    (queryColour (.kymo 2) iw green 1 ⟨0, 0, [(0, ⟨[2, 3], [0, 0, 0, 0, 0, 0]⟩)]⟩).1.cache = [] :=
+  repair_discards_cache _ _ _ _ _ (by decide)
+
+/-- A colour whose slice of the current window is empty (no channel, a channel recorded only after the
+    item ended or one that stopped before it began): the image of all-zero pixels, one per boundary
+    of the current window. -/
+theorem no_data_zero_current (k : Kind) (iw : List Nat) (s : Stream) (off : Nat)
+    (h0 : (chanSlice iw.length off s).2 = []) (hb : (iw.drop off).count 2 ≠ 0) :
+    freshImage k iw s off = imageOfPixels k (.ok (List.replicate ((iw.drop off).count 2) 0)) := by
+  unfold freshImage channelPixelsAt
+  rw [h0]
+  simp only [List.length_nil, or_true, if_true]
+  rw [missing_colour_zero _ hb]
+
+-- a channel that exists but starts at the end of the info wave (seeded change C02c-m1), one that ended before it
+example : freshImage (.kymo 2) [0, 1, 2, 2, 0, 2] ⟨-6, [5, 6, 7]⟩ 0 = .ok ⟨[2, 2], [0, 0, 0, 0]⟩ := by decide
+example : freshImage (.kymo 2) [0, 1, 2, 2, 0, 2] ⟨2, [5, 6]⟩ 0 = .ok ⟨[2, 2], [0, 0, 0, 0]⟩ := by decide
+example := no_data_zero_current (.kymo 2) [0, 1, 2, 2, 0, 2] ⟨-6, [5, 6, 7]⟩ 0 (by decide) (by decide)
+
+/-- Shape of a kymograph image: a function of the number of pixels only. -/
+theorem kymo_image_shape (P : Nat) (hP : 0 < P) (px : List Int) :
+    ∃ flat, imageOfPixels (.kymo P) (.ok px) = .ok ⟨[P, (px.length + P - 1) / P], flat⟩ := by
+  refine ⟨(kymoImage P px).flatten, ?_⟩
+  have hsh := kymo_shape P hP px
+  have hrow : rowLen (kymoImage P px) = (px.length + P - 1) / P := by
+    unfold rowLen
+    cases hk : kymoImage P px with
+    | nil => rw [hk] at hsh; simp at hsh; omega
+    | cons row rest => rw [hk] at hsh; simpa using hsh.2 row (by simp)
+  show Res.ok (Image.mk [(kymoImage P px).length, rowLen (kymoImage P px)] _) = _
+  rw [hsh.1, hrow]
+
+example := kymo_image_shape 3 (by decide) [1, 2, 3, 4]
+
+/-- For one and the same start of the kymograph, a colour without data in the window and a colour whose
+    stream covers the whole window are both reconstructed, with the same shape. -/
+theorem kymo_no_data_same_shape (P : Nat) (hP : 0 < P) (iw : List Nat) (s0 s1 : Stream) (off : Nat)
+    (h0 : (chanSlice iw.length off s0).2 = [])
+    (h1 : (chanSlice iw.length off s1).1 = 0)
+    (h1' : (chanSlice iw.length off s1).2.length = (iw.drop off).length)
+    (hb : (iw.drop off).count 2 ≠ 0) :
+    ∃ im0 im1, freshImage (.kymo P) iw s0 off = .ok im0 ∧ freshImage (.kymo P) iw s1 off = .ok im1 ∧
+      im0.shape = im1.shape := by
+  have hne : (chanSlice iw.length off s1).2.length ≠ 0 := by
+    rw [h1']; intro hz
+    have : iw.drop off = [] := List.length_eq_zero_iff.mp hz
+    rw [this] at hb; simp at hb
+  obtain ⟨f0, hf0⟩ := kymo_image_shape P hP (List.replicate ((iw.drop off).count 2) 0)
+  obtain ⟨f1, hf1⟩ := kymo_image_shape P hP (pixelsSpec (chanSlice iw.length off s1).2 (iw.drop off))
+  refine ⟨⟨[P, ((List.replicate ((iw.drop off).count 2) (0 : Int)).length + P - 1) / P], f0⟩,
+    ⟨[P, ((pixelsSpec (chanSlice iw.length off s1).2 (iw.drop off)).length + P - 1) / P], f1⟩, ?_, ?_, ?_⟩
+  · rw [no_data_zero_current _ iw s0 off h0 hb, hf0]
+  · unfold freshImage channelPixelsAt
+    rw [h1]
+    simp only [true_or, if_true]
+    rw [full_channel _ _ h1' hne, reconstructSum_spec]
+    simp only [h1', ne_eq, not_true_eq_false, if_false, hb]
+    exact hf1
+  · simp [pixels_count _ _ h1']
+
+-- after the first-line repair (start = sample 4) of a kymograph whose green stream starts one sample late
+example := kymo_no_data_same_shape 2 (by decide) [1, 2, 2, 0, 2, 2, 0, 2, 2] ⟨0, []⟩ ⟨-1, [1, 2, 3, 4, 5, 6, 7, 8]⟩ 4
+  (by decide) (by decide) (by decide) (by decide)
+
 end Verif.C02
